@@ -1,8 +1,27 @@
 import NdnModel.Lvs.CProto
+import NdnModel.Lvs.Load
 /-  Driver of C13: the LVS line protocol (see NdnModel/Lvs/Proto.lean) extended with the compiler model
-    (NdnModel/Lvs/CProto.lean).  -/
-namespace Ndn.Drv.C13
+    (NdnModel/Lvs/CProto.lean) and with `Checker.load` on bytes (NdnModel/Lvs/Load.lean):
 
-def handle (args : List String) : String := Ndn.Lvs.CProto.handle args
+      loadbytes <wire hex> <env> <names>   →  ok <exception class>
+                                            |  ok accepted-nocnt                  (no NamedPatternCnt in the bytes)
+                                            |  ok accepted <matches> <checks>     (as `full`)  -/
+namespace Ndn.Drv.C13
+open Ndn Ndn.Lvs Ndn.Lvs.Proto
+
+def handle (args : List String) : String :=
+  match args with
+  | ["loadbytes", ws, es, nss] =>
+    match fromHex ws, parseEnv es, (nss.splitOn "/").mapM fromHexList with
+    | some wire, some env, some names =>
+      match loadBytes wire with
+      | .error e => "ok " ++ e.name
+      | .ok L =>
+        if L.cntPresent then
+          "ok accepted " ++ "/".intercalate (names.map (matchOne L.model env false)) ++ " " ++
+            ",".intercalate (names.flatMap fun p => names.map fun k => checkOne L.model env p k)
+        else "ok accepted-nocnt"
+    | _, _, _ => "bad-op"
+  | _ => Ndn.Lvs.CProto.handle args
 
 end Ndn.Drv.C13
